@@ -62,8 +62,9 @@ Print Assumptions C01_conditionals_preserved.
    arguments are statements of these programs too: scall is what a call does in the source, call what the script's
    function does (with pos its positional parameters), and call_refines says the latter refines the former - results in
    the return registers, the caller's variables still represented, protected flags and the names of later functions
-   unwritten.  Sem/CallPreserve.v discharges call_refines for function definitions. *)
-Theorem C01_loops_preserved : forall call pos klo mlo scall, call_refines call klo mlo scall ->
+   unwritten.  more fuel never changes what a call does (fuel_mono).  Sem/CallPreserve.v discharges call_refines for the functions of a
+   script (C02_calls_refined). *)
+Theorem C01_loops_preserved : forall call pos, fuel_mono call -> forall klo mlo scall, call_refines call klo mlo scall ->
   forall XS sg body sg' out s u s' b,
   J scall XS (Prog body) sg sg' out SN -> go_fix body s = TOk u s' -> frag2_all body = true -> env_ok sg -> ctx_ok XS sg b s ->
   fresh_flags klo mlo XS s ->
@@ -141,7 +142,7 @@ Definition prog3 : list stmt :=
 Example C01_loop_sample :
   frag2_all prog3 = true /\
   match go_fix prog3 b_init with
-  | TOk _ s' => option_map snd (lrun (fun _ _ _ => None) [] 2000 false [] [] (b_code s'))
+  | TOk _ s' => option_map snd (lrun (fun _ _ _ _ => None) [] 2000 false [] [] (b_code s'))
                 = Some (bs "0 0" ++ [10] ++ bs "1 1" ++ [10] ++ bs "3 4" ++ [10] ++ bs "4 8" ++ [10] ++ bs "end 8" ++ [10])
   | _ => False
   end.
